@@ -347,7 +347,52 @@ def _closure(ctx, paths) -> None:
                 ok_f, why = fields_ok(val)
                 ctx.ob("PLACEHOLDERS", f"{loc}/{k}", ok_f, f"`{val}`: {why}", rel)
         _tokens(ctx, loc, data, rel)
+        _direction_markers(ctx, loc, data, rel)
     ctx.count("key_instances", total)
+
+
+def _direction_markers(ctx, loc: str, data: dict, rel: str) -> None:
+    """MARKER.direction: the phrase must carry the marker of its direction.  Within one locale the templates of translations.relative
+    share, per direction, one way of marking it - the words before the placeholder (`in {0} ...`, `vor {0} ...`) or, when nothing precedes
+    it, the last word (`{0} ... ago`).  When such a marker is common to at least six templates of one direction and never used by the
+    other, a template of the other direction that carries it is reported (a future phrase that reads as past, or the reverse); so is a
+    future template equal to a past template of the same unit, and custom.after == custom.before / from_now == ago."""
+    rel_t = (data.get("translations") or {}).get("relative") or {}
+    if not isinstance(rel_t, dict):
+        return
+
+    def sig(t):
+        if not isinstance(t, str) or "{0}" not in t:
+            return None
+        pre = t.split("{0}")[0].strip()
+        return (pre, "") if pre else ("", t.split("{0}")[-1].strip().split(" ")[-1])
+    seen = {"future": {}, "past": {}}
+    for unit, v in rel_t.items():
+        if not isinstance(v, dict):
+            continue
+        fut, past = v.get("future") or {}, v.get("past") or {}
+        if isinstance(fut, dict) and isinstance(past, dict):
+            same = sorted(k for k, t in fut.items() if isinstance(t, str) and t in past.values())
+            ctx.ob("MARKER.direction", f"{loc}/relative.{unit}", not same,
+                   f"future and past templates differ" if not same else f"future.{same[0]} = `{fut[same[0]]}` is also a past template of the unit: the phrase cannot tell the direction", rel, nontrivial=False)
+        for dirn in ("future", "past"):
+            for k, t in (v.get(dirn) or {}).items() if isinstance(v.get(dirn), dict) else ():
+                sg = sig(t)
+                if sg is not None:
+                    seen[dirn].setdefault(sg, []).append((unit, k, t))
+    for dirn, other in (("future", "past"), ("past", "future")):
+        for sg, items in seen[other].items():
+            if len(items) >= 6:
+                wrong = seen[dirn].get(sg, [])
+                # the marker of `other`, used by most of its templates; in `dirn` it may only appear if `dirn` uses it as widely itself
+                if wrong and len(wrong) < 3:
+                    for unit, k, t in wrong:
+                        ctx.ob("MARKER.direction", f"{loc}/relative.{unit}.{dirn}.{k}", False,
+                               f"`{t}` carries the marker of the {other} ({' '.join(x for x in sg if x)!r}, used by {len(items)} {other} templates of this locale and by no other {dirn} template)", rel)
+    c = data.get("custom") or {}
+    for a, b in (("after", "before"), ("from_now", "ago")):
+        if isinstance(c.get(a), str) and isinstance(c.get(b), str):
+            ctx.ob("MARKER.direction", f"{loc}/custom.{a}", c[a] != c[b], f"custom.{a} = `{c[a]}` and custom.{b} = `{c[b]}`", rel, nontrivial=False)
 
 
 def _tokens(ctx, loc: str, data: dict, rel: str) -> None:
